@@ -1418,9 +1418,13 @@ def _again_after_inplace(fn, kwargs, first):
     return ["again", canon.canon(first), a]
 
 
-def _exec_op(world, scn_ops, op, fresh=False):
-    """Execute one op in ``world``.  Returns canonical result (or ['exc', name])."""
+def _exec_op(world, scn_ops, op, fresh=False, wrap=None):
+    """Execute one op in ``world``.  Returns canonical result (or ['exc', name]).  ``wrap`` (used
+    for interrupted calls) runs only the library call itself under the scheduler: building the
+    arguments is the caller's own business and always completes (pool indices stay aligned)."""
     k = op["k"]
+    if wrap is not None and k != "call":
+        return wrap(lambda: _exec_op(world, scn_ops, op, fresh))
     if k == "call":
         fn = CALLS[op["f"]][0]()
         kwargs = {}
@@ -1429,7 +1433,10 @@ def _exec_op(world, scn_ops, op, fresh=False):
             kwargs["data" if name == "$data" else name] = _materialise(world, scn_ops, spec, fresh)
         if world.after_build is not None:
             world.after_build()  # snapshot newly built arguments BEFORE the library sees them
-        res, exc = core.capture(fn, **kwargs)
+        if wrap is not None:
+            res, exc = core.capture(lambda: wrap(lambda: fn(**kwargs)))
+        else:
+            res, exc = core.capture(fn, **kwargs)
         if op.get("again") and exc is None:
             return _again_after_inplace(fn, kwargs, res)
         return ["exc", exc.name] if exc else canon.canon(res)
@@ -1762,7 +1769,7 @@ class C09Engine(Engine):
                 ctx.fault_configured("interrupt_in_call")
                 pre = seams.Preemptor(self._prefix, {op["interrupt_at"]: seams.interrupt_now})
                 try:
-                    pre.run(lambda: _exec_op(world, ops, op))
+                    _exec_op(world, ops, op, wrap=pre.run)
                     ctx.probe("interruption_point_not_reached")
                     interrupted = False
                 except seams.SimInterrupt:
